@@ -132,12 +132,15 @@ func runScanOps(sc *scanCase, mode byte) (res []string, hang bool) {
 
 // robGetInt stands for Reader.getInt of a real session (a nil function value
 // would make ReadStreamData panic on a direct /Length, an artefact of the
-// test hook only): direct integers only.
+// test hook only): direct integers only; everything else is a malformed-file
+// error, which ReadStreamData treats as "length unknown" (a read error of
+// getInt is returned by ReadStreamData since a2d2dfe; read errors of this
+// scanner come from its reader only).
 func robGetInt(o pdf.Object) (pdf.Integer, error) {
 	if i, ok := o.(pdf.Integer); ok {
 		return i, nil
 	}
-	return 0, fmt.Errorf("not an integer")
+	return 0, &pdf.MalformedFileError{Err: fmt.Errorf("not an integer")}
 }
 
 func runScanObject(s *pdf.VerifScanner) (res string, panicked bool) {
@@ -239,11 +242,11 @@ func scanFaultOracle(sc *scanCase) (ok bool, key, detail string) {
 		if fp[0] == "s" && fp[1] == "malformed" && gp[1] == "ok" && len(sc.ops[i]) > 3 {
 			key = "C19-peekn-short-read-error-swallowed"
 		}
-		// finding ROB-7: tryHex ignores the error of its PeekN(3) ('buf, _ :=
-		// s.PeekN(3)'): when the reader fails inside a '#xx' escape the '#' is kept
-		// as a literal character and the name goes on over what is left in the
-		// window; at the 4096-byte cap that ends in "name too long" (malformed)
-		// instead of the reader's error
+		// former finding ROB-7 (fixed upstream in 325162a; the class key is kept as a
+		// regression detector, a recurrence is a VIOLATION): tryHex ignored the error
+		// of its PeekN(3); when the reader failed inside a '#xx' escape the '#' was
+		// kept as a literal character and, at the 4096-byte cap, the name ended in
+		// "name too long" (malformed) instead of the reader's error
 		if len(fp) == 2 && fp[0] == "o" && fp[1] == "malformed" && len(gp) == 3 && gp[1] == "ok" &&
 			bytes.Contains(sc.data, []byte("#")) && len(sc.data) > 4096 {
 			key = "C19-tryhex-peek-error-ignored"
@@ -484,7 +487,7 @@ func robObjFaultRun(c *Ctx) {
 			}
 		}
 	}
-	// finding ROB-7 (tryHex drops the error of its PeekN(3)): a name that reaches
+	// former finding ROB-7 (tryHex dropped the error of its PeekN(3)): a name that reaches
 	// the 4096-byte cap with a '#xx' escape as its last character; the reader
 	// fails after "#4".  Only the calls around the escape are enumerated.
 	long := []byte("/" + strings.Repeat("a", 4095) + "#41 ")
